@@ -71,6 +71,29 @@ def run(ctx, pid=PID, check=_life.check_c03, with_up=WITH_UP):
         tid += 1
         meta[tid] = (entry, hist, origin)
         recs += _life.trace_events(tid, entry["mode"], hist, obs)
+    if with_up:
+        # update_predict with a horizon that reaches into the sample (window forecasters answer those steps by a
+        # nested moving-cutoff pass): the forecaster's own cutoff must still be where it was (Inv_CutoffRestored)
+        from sktime.forecasting.model_selection import SlidingWindowSplitter
+        for entry in [e for e in entries if e["name"] in ("naive_last", "naive_mean_w3", "naive_drift", "poly1")]:
+            for fhs in ([-1, 0, 1, 2], [0, 1], [-2, 1]):
+                ctx.evaluations += 1
+                sc = {"forecaster": entry["name"], "insample_update_predict": fhs}
+                try:
+                    f = entry["factory"]()
+                    f.fit(LC.batch(0, 11, 1, 0, "range"), fh=fhs)
+                    before = int(f.cutoff)
+                    f.update_predict(LC.batch(12, 17, 2, 0, "range"),
+                                     cv=SlidingWindowSplitter(fh=fhs, window_length=3, start_with_window=True))
+                    if int(f.cutoff) != before:
+                        ctx.violation(sc, "CutoffRestored: update_predict with horizon %s left the cutoff at %s (was %s)"
+                                      % (fhs, f.cutoff, before))
+                    else:
+                        ctx.nontriv(sc)
+                except (ValueError, TypeError, NotImplementedError):
+                    pass        # in-sample steps not offered by this forecaster
+                except Exception as e:
+                    ctx.violation(sc, "crash: %s %s" % (type(e).__name__, str(e)[:120]))
     allrecs = trace + recs
     rejects, _ = ctx.judge("TraceForecaster", "TraceForecaster.cfg", allrecs, timeout=2400)
     ntr = len({r["tid"] for r in allrecs})
@@ -105,6 +128,8 @@ def T_err(msg):
 
 def replay(ctx, doc, check=_life.check_c03, with_up=False):
     sc = doc["scenario"]
+    if "insample_update_predict" in sc:
+        return run(ctx, pid=ctx.pid, check=check, with_up=with_up)
     entry = [e for e in scope.forecasters() if e["name"] == sc["forecaster"]][0]
     if "beh" in sc:
         bad, obs = check(ctx, entry, sc["beh"], sc["origin"], sc["index_kind"], sc.get("fhvariant", 0))
